@@ -518,3 +518,74 @@ def l_spec( ctx ):
                          '%s 0x%02X: produced reply [%s] is no spec layout' % ( cname, num, show_seq( p )),
                          'spec layouts: %s' % ' | '.join( '[' + show_spec( s ) + ']' for s in sseqs ), func=cname + '.produce' )
     return res
+
+
+# ---------------------------------------------------------------------------------------- L-CODEC (C01): class-level produce() vs the class's own parser
+
+CODEC_PAIRS = ( 'status', 'register', 'send_data', 'connection_ID', 'connection_data', 'unconnected_send', 'CPF', 'SSTRING', 'STRING',
+                'IFACEADDRS', 'identity_object', 'communications_service' )
+
+
+def codec_layouts( ctx, name ):
+    g = grammar_of( ctx )
+    src = ctx.src( PARSER )
+    fn = src.get( name + '.produce' )
+    args = [ a.arg for a in fn.args.args ]
+    art = args[1] if args and args[0] in ( 'cls', 'self' ) and len( args ) > 1 else args[0]
+    pr = ProducerLayout( g, fn, name, art )
+    P = resolve_struct_lits( pr.block( fn.body, [ Seq() ], {}, {} ))
+    m = g.machines.get( name )
+    if m is None:
+        raise AnalysisError( 'machine %s not extracted' % name )
+    Q = resolve_struct_lits( ParserLayout( g ).seqs( m.sub_initial(), '' ))
+    return fn, P, Q, pr.unknown
+
+
+@rule( 'L-CODEC', props=( 'C01', 'C14' ), floor=12 )
+def l_codec( ctx ):
+    """class-level codecs (status, register, send_data, CPF and its items, unconnected_send, SSTRING/STRING, IFACEADDRS, identity/services items): every layout produce() can emit is accepted by the class's own parser; enip_encode emits the 24-byte header the frame machine parses"""
+    res = Result( 'L-CODEC' )
+    src = ctx.src( PARSER )
+    for name in CODEC_PAIRS:
+        fn, P, Q, unknown = codec_layouts( ctx, name )
+        if unknown:
+            res.note( '%s.produce: constructs outside the modelled subset (%s); pair not decided' % ( name, unknown[:2] ))
+            continue
+        seen = set()
+        for p in P:
+            if p.atoms in seen:
+                continue
+            seen.add( p.atoms )
+            if any( seq_match( p.atoms, q.atoms )[0] for q in Q ):
+                res.ok( src, L( p.trace[0][0] if p.trace and isinstance( p.trace[0][0], int ) else fn.lineno ), '%s: produced layout [%s] is accepted by its parser' % ( name, show_seq( p )))
+            else:
+                best = max( Q, key=lambda q: ( seq_match( p.atoms, q.atoms )[1] or 0 ))
+                i = seq_match( p.atoms, best.atoms )[1]
+                pa = show_atom( p.atoms[i] ) if i < len( p.atoms ) else '(end of message)'
+                line = p.trace[min( i, len( p.trace ) - 1 )][0] if p.trace else fn.lineno
+                res.bad( src, L( line if isinstance( line, int ) else fn.lineno ), '%s.produce: field %d (%s) is not what the %s parser expects there' % ( name, i, pa, name ),
+                         'produced layout [%s]; closest parser layout [%s]' % ( show_seq( p ), show_seq( best )), func=name + '.produce' )
+    # enip_encode vs the frame machine (header fields in order, then the payload)
+    g = grammar_of( ctx )
+    fn = src.get( 'enip_encode' )
+    pr = ProducerLayout( g, fn, 'enip_encode', fn.args.args[0].arg )
+    P = pr.block( fn.body, [ Seq() ], {}, {} )
+    m = g.machines.get( 'enip_machine' )
+    Q = ParserLayout( g ).seqs( m.sub_initial().sub_initial(), '' )		# the header chain
+    hdr = max( Q, key=lambda q: len( q.atoms ))
+    if pr.unknown:
+        raise AnalysisError( 'enip_encode: construct outside the modelled subset: %s' % pr.unknown[:2] )
+    for p in P:
+        head = tuple( a for a in p.atoms )[:len( hdr.atoms )]
+        ok, i = seq_match( head, hdr.atoms )
+        tail = p.atoms[len( hdr.atoms ):]
+        if ok and len( tail ) <= 1 and all( a[0] == 'V' for a in tail ):
+            res.ok( src, fn, 'enip_encode emits the header [%s] then the payload' % show_seq( Seq( head )))
+        else:
+            res.bad( src, fn, 'enip_encode layout [%s]' % show_seq( p ), 'the frame machine parses [%s] then `length` payload octets' % show_seq( hdr ), func='enip_encode' )
+    # the length field is the length of what is appended
+    if pfind( fn, "UINT.produce( len( data.input ) if 'input' in data else 0 )" ) and pfind( fn, "octets_encode( data.input ) if 'input' in data else b''" ):
+        res.ok( src, fn, 'enip_encode: length field = len( data.input ), payload = data.input' )
+    else:
+        res.bad( src, fn, 'enip_encode length/payload', 'the header length must be the length of the payload appended', func='enip_encode' )
+    return res
